@@ -161,8 +161,11 @@ def make_lit(lit: Lit, timeout):
             reached()
             return ("build_failed", site, err)
         src = Src({"i0": k})
-        kk = src.sel(4)
-        x = i if kk == 0 else (Src({"s0": s}).str(2) if kk == 1 else (b if kk == 2 else None))
+        kk = src.sel(7)
+        if kk >= 4:  # unhashable candidates: still a ValueError, not the error of a failed hash
+            x = [["x"], {"x": 1}, bytearray(b"x")][kk - 4]
+        else:
+            x = i if kk == 0 else (Src({"s0": s}).str(2) if kk == 1 else (b if kk == 2 else None))
         member = False
         for mv in lit.values:
             if type(mv) is type(x) and mv == x:
